@@ -11,6 +11,9 @@ import (
 type KDC struct {
 	// DripGap: pause between the pieces of a dripped reply
 	DripGap time.Duration
+	// Cuts, PieceGap: where and how far apart a "reply-pieces" reply is cut
+	Cuts     []int
+	PieceGap time.Duration
 	drips   int
 
 	W        *World
@@ -79,6 +82,10 @@ func (w *World) AddKDC(proto, addr, behave string, reply []byte) *KDC {
 					e.Shut()
 				}
 			case "silent", "deaf":
+			case "reply-pieces":
+				// a complete, timely reply that travels in several TCP segments (cut at k.Cuts,
+				// per mille of its length), milliseconds apart
+				k.piecesStart(e, reply)
 			case "drip":
 				// the reply comes in pieces, each a few seconds after the previous one
 				k.dripStart(e, reply)
@@ -110,6 +117,37 @@ func (k *KDC) ReplyFor(req []byte) []byte {
 	body := append(append([]byte{}, k.Reply[4:]...), tag...)
 	out := []byte{byte(len(body) >> 24), byte(len(body) >> 16), byte(len(body) >> 8), byte(len(body))}
 	return append(out, body...)
+}
+
+// piecesStart sends a reply cut at k.Cuts (per mille of its length; a cut of 1-3 is taken as
+// that many bytes: inside the length prefix), PieceGap apart, and leaves the connection open.
+func (k *KDC) piecesStart(e *sim.End, reply []byte) {
+	w := k.W
+	var offs []int
+	last := 0
+	for _, c := range k.Cuts {
+		o := len(reply) * c / 1000
+		if c <= 3 {
+			o = c
+		}
+		if o > last && o < len(reply) {
+			offs = append(offs, o)
+			last = o
+		}
+	}
+	offs = append(offs, len(reply))
+	sent, from := 0, 0
+	next := time.Now()
+	k.drips++
+	w.S.AddActor(fmt.Sprintf("K pieces %s %s %d", k.Proto, k.Addr, k.drips), func() bool {
+		return sent < len(offs) && !e.Closed && !time.Now().Before(next)
+	}, func() {
+		e.Send(reply[from:offs[sent]])
+		from = offs[sent]
+		sent++
+		next = time.Now().Add(k.PieceGap)
+		w.S.Count("probe.kdc.reply_piece")
+	})
 }
 
 // dripStart sends a reply in 6-10 pieces with DripGap between them (an actor per connection:
